@@ -314,7 +314,7 @@ class Buffer:
 class Arr:
     __array_priority__ = 1000
 
-    def __init__(self, shape, legs=None, dtype='real', buf=None, tags=None, origin=''):
+    def __init__(self, shape, legs=None, dtype='real', buf=None, tags=None, origin='', parents=None):
         self.shape = tuple(simp(Size.of(s, CTX.atoms)) if not isinstance(s, int) else s for s in shape)
         if legs is None:
             legs = [() if is_one(s) else (opaque_leg(s, origin),) for s in self.shape]
@@ -325,7 +325,7 @@ class Arr:
         self.buf = buf if buf is not None else Buffer(origin)
         self.tags = dict(tags or {})
         self.origin = origin
-        self.parents = tuple(getattr(CTX, 'cur_operands', ()))
+        self.parents = tuple(parents) if parents is not None else tuple(getattr(CTX, 'cur_operands', ()))
         srcs = frozenset()
         for p_ in self.parents:
             srcs = srcs | (frozenset([id(p_)]) if id(p_) in CTX.core_tokens else p_.srcs)
@@ -350,11 +350,11 @@ class Arr:
 
     @property
     def real(self):
-        return Arr(self.shape, self.legs, 'real' if self.dt == 'complex' else self.dt, self.buf, origin='real')
+        return Arr(self.shape, self.legs, 'real' if self.dt == 'complex' else self.dt, self.buf, origin='real', parents=(self,))
 
     @property
     def imag(self):
-        return Arr(self.shape, self.legs, 'real', None, origin='imag')
+        return Arr(self.shape, self.legs, 'real', None, origin='imag', parents=(self,))
 
     def __len__(self):
         if not self.shape:
@@ -377,15 +377,15 @@ class Arr:
         return id(self)
 
     # ---- views
-    def view(self, shape, legs, tags=None):
-        return Arr(shape, legs, self.dt, self.buf, tags, self.origin)
+    def view(self, shape, legs, tags=None, origin=None):
+        return Arr(shape, legs, self.dt, self.buf, tags, origin or self.origin, parents=(self,))
 
     def copy(self):
-        a = Arr(self.shape, self.legs, self.dt, None, self.tags, 'copy')
+        a = Arr(self.shape, self.legs, self.dt, None, self.tags, 'copy', parents=(self,))
         return a
 
     def astype(self, t):
-        return Arr(self.shape, self.legs, dtype_of(t), None, self.tags, 'astype')
+        return Arr(self.shape, self.legs, dtype_of(t), None, self.tags, 'astype', parents=(self,))
 
     def conj(self):
         t = {}
@@ -396,7 +396,7 @@ class Arr:
         for k in ('const', 'isometry'):
             if k in self.tags:
                 t[k] = self.tags[k]
-        return Arr(self.shape, legs_conj(self.legs), self.dt, self.buf if self.dt != 'complex' else None, t, 'conj')
+        return Arr(self.shape, legs_conj(self.legs), self.dt, self.buf if self.dt != 'complex' else None, t, 'conj', parents=(self,))
 
     conjugate = conj
 
@@ -415,7 +415,7 @@ class Arr:
             t['prov'] = dict(self.tags['prov'], transposed=not self.tags['prov'].get('transposed', False))
         if 'const' in self.tags and self.tags['const'] in ('eye', 'zeros', 'ones'):
             t['const'] = self.tags['const']
-        return self.view([self.shape[p] for p in perm], [self.legs[p] for p in perm], t)
+        return self.view([self.shape[p] for p in perm], [self.legs[p] for p in perm], t, origin='transpose')
 
     def reshape(self, *shape, **kw):
         if len(shape) == 1 and isinstance(shape[0], (list, tuple)):
@@ -424,7 +424,7 @@ class Arr:
 
     def flatten(self):
         r = reshape(self, (self.size,))
-        return Arr(r.shape, r.legs, r.dt, None, r.tags, 'flatten')
+        return Arr(r.shape, r.legs, r.dt, None, r.tags, 'flatten', parents=(self,))
 
     def ravel(self):
         return reshape(self, (self.size,))
@@ -1162,6 +1162,9 @@ def np_array(x, dtype=None, ndmin=0, **k):
         r = x.copy()
     elif isinstance(x, (int, float, complex, Size)):
         r = as_arr(x)
+    elif type(x).__name__ == 'SymList':
+        item = np_array(x.elem) if isinstance(x.elem, (list, tuple)) else as_arr(x.elem)
+        r = Arr((x.n,) + tuple(item.shape), [() if is_one(x.n) else (opaque_leg(x.n, 'array'),)] + list(item.legs), item.dt, None, {'elements': [item], 'symbolic_length': x.n}, 'array')
     elif isinstance(x, (list, tuple)):
         if len(x) == 0:
             r = Arr((0,), [(opaque_leg(0),)], 'real', None)
